@@ -97,6 +97,8 @@ def render_order(idx, t):
     unordered = [f"Mk::g.each_call(matching!(_)).returns({200 + i}u32)" for i in range(n)]
     exp_o = tree_text(t, ordered, [0])
     exp_u = tree_text(t, unordered, [0])
+    staggered = [f"Mk::g.each_call(matching!((x) if *x >= {n - 1 - i})).returns({300 + i}u32)" for i in range(n)]
+    exp_s = tree_text(t, staggered, [0])
     return f"""    pub fn run() -> Result<(), String> {{
         // ordered terminal clauses: exactly the left-to-right order is accepted
         let u = Unimock::new({exp_o});
@@ -131,6 +133,16 @@ def render_order(idx, t):
         let n_patterns = unimock::verif::snapshot(&u).method("Tr::g").map(|m| m.patterns.len()).unwrap_or(0);
         if n_patterns != {n} {{
             return Err(format!("{{n_patterns}} patterns assembled from {n} clauses"));
+        }}
+        // staggered overlap: clause i accepts x >= {n}-1-i, so x = {n}-1-i is answered by clause i
+        // exactly if the clauses are tried in declaration order at every position
+        let u = Unimock::new({exp_s}).no_verify_in_drop();
+        for i in 0..{n}u8 {{
+            let x = {n}u8 - 1 - i;
+            match vh::obs::catch(|| u.g(x)) {{
+                Ok(v) if v == 300 + i as u32 => {{}}
+                other => return Err(format!("g({{x}}) must be answered by clause {{i}} of {n} staggered clauses: {{other:?}}")),
+            }}
         }}
         Ok(())
     }}
@@ -244,7 +256,7 @@ def run(pid, tier, replay, start):
     results = crate.run()
     by_idx = {i.idx: i for i in insts}
     for i in rejected:
-        rep.violation(f"shape:{by_idx[i].key}", f"{by_idx[i].key}: the composition does not compile", {"shape": by_idx[i].key})
+        rep.violation(f"shape:{by_idx[i].key}", f"{by_idx[i].key}: the composition does not compile: {getattr(crate, 'reasons', {}).get(i, '')}", {"shape": by_idx[i].key})
     n_ok = 0
     for inst in kept:
         ok, msg = results.get(inst.idx, (False, "no result"))
